@@ -198,6 +198,9 @@ impl Prog {
     }
     /// the input class used in violation signatures
     pub fn input_class(&self) -> String {
+        if self.entry == "seq" {
+            return "call_sequence".to_string();
+        }
         let shape = if self.shape.contiguous() { "contiguous" } else { self.shape.tag() };
         let arg = if self.x.in_range() && self.y.in_range() { "in_range".to_string() } else { format!("x={},y={}", self.x.tag(), self.y.tag()) };
         let cb = if self.cb > 0 { ",callback_panic" } else { "" };
@@ -338,12 +341,28 @@ pub const ENTRIES: &[Entry] = &[
     e!("predecessor_tree_search_by", FIX, Args::XY, cb),
     e!("predecessor_tree_user_built", &[L], Args::XY),
     e!("prng", &[L], Args::None),
+    // generated call sequences: (x, y, cb, t) only encode the sequence's seed
+    e!("seq", UNW, Args::XY),
 ];
 
 /// The complete catalogue, in a fixed order.
 pub fn catalogue() -> Vec<Prog> {
     let mut out = Vec::new();
     for en in ENTRIES {
+        if en.name == "seq" {
+            for &repr in en.reprs {
+                for &x in &IDS {
+                    for &y in &IDS {
+                        for cb in 0..3u8 {
+                            for t in 0..5u8 {
+                                out.push(Prog { entry: en.name, repr, shape: Shape::Trivial, x, y, cb, t });
+                            }
+                        }
+                    }
+                }
+            }
+            continue;
+        }
         for &repr in en.reprs {
             let shapes: Vec<Shape> = if en.args == Args::Gen || matches!(en.name, "empty_huge" | "distance_matrix_huge" | "prng") {
                 vec![Shape::Trivial]
@@ -389,7 +408,7 @@ pub fn catalogue() -> Vec<Prog> {
 /// the ones that can be expected to return normally whatever the tree looks like.
 pub fn is_safe_subset(p: &Prog) -> bool {
     let gen = ENTRIES.iter().find(|e| e.name == p.entry).is_some_and(|e| e.args == Args::Gen);
-    (gen || (p.x.in_range() && p.y.in_range())) && p.cb == 0 && p.shape.contiguous() && !p.entry.contains("huge")
+    (gen || (p.x.in_range() && p.y.in_range())) && p.cb == 0 && p.shape.contiguous() && !p.entry.contains("huge") && p.entry != "seq"
 }
 
 pub fn find(name: &str) -> Option<Prog> {
@@ -966,6 +985,11 @@ pub fn body(p: &Prog) -> u64 {
             t2[0] = Some(0);
             a + b + t2.search(0, 0).map_or(0, |w| w.len()) as u64 + t2.into_iter().count() as u64
         }
+        "seq" => {
+            let xi = IDS.iter().position(|i| *i == p.x).unwrap() as u64;
+            let yi = IDS.iter().position(|i| *i == p.y).unwrap() as u64;
+            seq::run(p.repr, ((xi * 6 + yi) * 3 + u64::from(p.cb)) * 5 + u64::from(p.t))
+        }
         "prng" => {
             let mut r = Xoshiro256StarStar::new(42);
             let mut s = 0u64;
@@ -1129,5 +1153,184 @@ pub mod judge {
         };
         set_cpus(0);
         r
+    }
+}
+
+// ------------------------------------------------------------------ generated call sequences
+
+/// Short *sequences* of public API calls (C13 quantifies over programs, not
+/// single calls): start from a shape, apply 2–5 seeded steps — mutations with
+/// ids from every argument class, whole-digraph operations that replace the
+/// value, vertex filtering — and finish with a traversal / algorithm / query
+/// whose arguments again come from every class. Each step runs under
+/// `catch_unwind`, as a caller that handles the documented panics would; the
+/// value stays in use afterwards. Program name: `seq/<repr>/<seed>`.
+pub mod seq {
+    use super::*;
+    use vmodel::rng::Rng;
+
+    #[derive(Clone)]
+    enum G {
+        L(AdjacencyList),
+        M(AdjacencyMap),
+        X(AdjacencyMatrix),
+        E(EdgeList),
+    }
+
+    macro_rules! each {
+        ($g:expr, $x:ident => $e:expr) => {
+            match $g {
+                G::L($x) => $e,
+                G::M($x) => $e,
+                G::X($x) => $e,
+                G::E($x) => $e,
+            }
+        };
+    }
+
+    fn guard<T>(f: impl FnOnce() -> T) -> Option<T> {
+        catch_unwind(AssertUnwindSafe(f)).ok()
+    }
+
+    fn pick_id(rng: &mut Rng, g: &G) -> usize {
+        let (order, verts): (usize, Vec<usize>) = each!(g, x => (x.order(), x.vertices().take(64).collect()));
+        match rng.below(10) {
+            0 => order,
+            1 => order + 1,
+            2 => 1 << 40,
+            3 => usize::MAX,
+            4 => *verts.last().unwrap_or(&0),
+            _ => {
+                if verts.is_empty() {
+                    0
+                } else {
+                    verts[rng.below(verts.len())]
+                }
+            }
+        }
+    }
+
+    pub const REPRS: [Repr; 4] = [L, M, X, E];
+
+    /// Run sequence `seed` on representation `repr`; returns a summary value.
+    pub fn run(repr: Repr, seed: u64) -> u64 {
+        let mut rng = Rng::new(0x5E9_0000 ^ seed.wrapping_mul(0x9E37_79B9));
+        let shapes: Vec<Shape> = SHAPES.iter().copied().filter(|s| s.contiguous() || repr == M).filter(|s| *s != Shape::MapFar || repr == M).collect();
+        let shape = shapes[rng.below(shapes.len())];
+        let d = shape.dg();
+        let mut g = match repr {
+            L => G::L(mk::L(d)),
+            M => G::M(mk::M(d)),
+            X => G::X(mk::X(d)),
+            _ => G::E(mk::E(d)),
+        };
+        let mut acc = 0u64;
+        let t = 1 + rng.below(4) as u8;
+        set_cpus(t);
+        for _ in 0..rng.range(2, 5) {
+            let (x, y) = (pick_id(&mut rng, &g), pick_id(&mut rng, &g));
+            match rng.below(9) {
+                0 | 1 => {
+                    let _ = guard(|| each!(&mut g, v => v.add_arc(x, y)));
+                }
+                2 => {
+                    acc += guard(|| each!(&mut g, v => v.remove_arc(x, y))).map_or(0, u64::from);
+                }
+                3 => {
+                    if let G::X(m) = &mut g {
+                        let _ = guard(|| m.toggle(x, y));
+                    }
+                }
+                4 => {
+                    if let Some(n) = guard(|| each!(&g, v => wrap(v.complement()))) {
+                        g = n;
+                    }
+                }
+                5 => {
+                    if let Some(n) = guard(|| each!(&g, v => wrap(v.converse()))) {
+                        g = n;
+                    }
+                }
+                6 => {
+                    if let Some(n) = guard(|| each!(&g, v => wrap(v.union(&v.converse())))) {
+                        g = n;
+                    }
+                }
+                7 => {
+                    if let G::M(m) = &g {
+                        if let Some(n) = guard(|| m.filter_vertices(|v| v != x)) {
+                            if n.order() > 0 {
+                                g = G::M(n);
+                            }
+                        }
+                    }
+                }
+                _ => {
+                    // conversion round trip through another representation (panics for non-contiguous maps)
+                    if let Some(n) = guard(|| match &g {
+                        G::L(v) => G::X(AdjacencyMatrix::from(v.clone())),
+                        G::M(v) => G::L(AdjacencyList::from(v.clone())),
+                        G::X(v) => G::E(EdgeList::from(v.clone())),
+                        G::E(v) => G::M(AdjacencyMap::from(v.clone())),
+                    }) {
+                        g = n;
+                    }
+                }
+            }
+        }
+        // terminal: a query / traversal / algorithm with ids of every class
+        let (x, y) = (pick_id(&mut rng, &g), pick_id(&mut rng, &g));
+        let k = rng.below(16);
+        acc += guard(|| each!(&g, v => match k {
+            0 => Bfs::new(v, [x].into_iter()).count(),
+            1 => BfsDist::new(v, [x, y].into_iter()).distances().len(),
+            2 => BfsPred::new(v, [x].into_iter()).shortest_path(|w| w == y).map_or(0, |p| p.len()),
+            3 => BfsPred::new(v, [x].into_iter()).cycles().len(),
+            4 => Dfs::new(v, [x, y].into_iter()).count(),
+            5 => DfsDist::new(v, [x].into_iter()).count(),
+            6 => DfsPred::new(v, [x].into_iter()).predecessors().search(y, x).map_or(0, |p| p.len()),
+            7 => Tarjan::new(v).components().len(),
+            8 => v.out_neighbors(x).count() + v.in_neighbors(y).count(),
+            9 => v.indegree(x) + v.outdegree(y) + v.degree(x),
+            10 => v.has_walk(&[x, y, x]) as usize + v.has_edge(x, y) as usize,
+            11 => v.is_sink(x) as usize + v.is_source(y) as usize + v.is_isolated(x) as usize + v.is_pendant(y) as usize,
+            12 => v.degree_sequence().sum::<usize>() + v.semidegree_sequence().count(),
+            13 => v.is_tournament() as usize + v.is_semicomplete() as usize + v.is_complete() as usize + v.is_regular() as usize,
+            14 => v.sinks().count() + v.sources().count() + v.max_degree() + v.min_indegree(),
+            _ => v.arcs().count() + v.vertices().count() + v.size(),
+        }))
+        .unwrap_or(0) as u64;
+        if let G::M(m) = &g {
+            if k % 4 == 0 {
+                acc += guard(|| Johnson75::new(m).circuits().len()).unwrap_or(0) as u64;
+            }
+        }
+        set_cpus(0);
+        acc
+    }
+
+    fn wrap<T: Into<G>>(t: T) -> G {
+        t.into()
+    }
+
+    impl From<AdjacencyList> for G {
+        fn from(v: AdjacencyList) -> Self {
+            G::L(v)
+        }
+    }
+    impl From<AdjacencyMap> for G {
+        fn from(v: AdjacencyMap) -> Self {
+            G::M(v)
+        }
+    }
+    impl From<AdjacencyMatrix> for G {
+        fn from(v: AdjacencyMatrix) -> Self {
+            G::X(v)
+        }
+    }
+    impl From<EdgeList> for G {
+        fn from(v: EdgeList) -> Self {
+            G::E(v)
+        }
     }
 }
